@@ -821,7 +821,7 @@ def orphan_index(audited, prog):
 
 
 def _erase_fields(key):
-    return re.sub(r'\bself\.[A-Za-z_][A-Za-z0-9_]*', 'self.#', key)
+    return re.sub(r'(?:\bself|\u2026)\.[A-Za-z_][A-Za-z0-9_]*', 'self.#', key)
 
 
 def audit_bodies(rep, rule, bodies, audited, classes=('assert', 'panic', 'partial', 'alloc', 'unchecked'), list_all=False, known_prefix=None):
@@ -831,7 +831,7 @@ def audit_bodies(rep, rule, bodies, audited, classes=('assert', 'panic', 'partia
     orphans = orphan_index(audited, bodies[0].prog) if bodies else {}
     erased = {}
     for k in audited:
-        if 'self.' in k:
+        if 'self.' in k or '\u2026.' in k:
             erased.setdefault(_erase_fields(k), []).append(k)
     # (new name, old name) candidates: an audited function that no longer exists and a function of the same module that
     # the table has never heard of
